@@ -27,6 +27,7 @@ def run(ctx, broken):
     lines += shifted_openings(ctx, lines)
     lines += unbound_key_commitments(ctx, lines)
     lines += compensated_public_inputs(ctx, lines)
+    lines += verifier_header_variants(lines, 1)
     lines += uncovered_evaluations(ctx, rng, 1 if ctx.tier == "quick" else 2)
     r.run(lines)
     st = r.report()
